@@ -55,4 +55,11 @@ func c16c(c *core.Ctx) {
 	}
 	c.Count("freshness clocks written by fsmApply", nUpd+nApp)
 	c.Min("freshness clocks written by fsmApply", 2)
+
+	// C16.d: what the store is told about the read is what the client asked for
+	why := "the store decides how to serve the read from the level, freshness and strictness it is handed (it maps AUTO to NONE or WEAK itself); a bound or level that is dropped or changed on the way in is not applied"
+	qpReadsOnly(c, "C16.d", "Freshness", "freshness", why)
+	qpReadsOnly(c, "C16.d", "FreshnessStrict", "freshness_strict", why)
+	qpReadsOnly(c, "C16.d", "Level", "level", why)
+	qpReadsOnly(c, "C16.d", "LinearizableTimeout", "linearizable_timeout", why)
 }
